@@ -122,6 +122,10 @@ class Renderer:
                 return '__asm__("nop");'
             if k == "empty":
                 return ";"
+        if fm == "ninit":
+            d = {"arr22": "int zv[2][2]", "sarr": "struct { int x[2]; int y; } zv", "sstr": "struct { struct { int a; } i; int b; } zv",
+                 "sun": "struct { union { int a; int b; } u; int c; } zv"}[f["tgt"]]
+            return "%s = { { %s } };" % (d, ", ".join(str(i + 1) for i in range(f["n"])))
         if fm == "sinitaddr":
             scalar, struct, array = {"auto": ("li", "lst", "lar"), "tls_file": ("gtl", "gtls", "gtla"), "tls_block": ("ltl", "ltls", "ltla"),
                                      "tls_extern": ("gtle", "gtles", "gtlea"), "static": ("gi", "gt", "ga")}[f["dur"]]
